@@ -183,6 +183,11 @@ theorem stopCall_hk (cfg : Cfg) (s : St) (err : Option GErr) (user : Bool) : HK 
   · split <;> rfl
   · split <;> rfl
 
+theorem userStop_hk (cfg : Cfg) (s : St) : HK s (userStop cfg s) := by
+  rcases userStop_cases cfg s with ⟨hu, _, _⟩ | hu <;> rw [hu]
+  · exact HK_frame rfl rfl (by simp [ND, destabilises])
+  · exact stopCall_hk _ _ _ _
+
 theorem rejoinAfterError_hk (cfg : Cfg) (s : St) (e : GErr) : HK s (rejoinAfterError cfg s e) := by
   unfold rejoinAfterError
   simp only []
@@ -249,7 +254,7 @@ theorem step_hk {s : St} (h : SInv s) (cfg : Cfg) (e : Ev) (hH : H (step cfg s e
     exact ⟨this.1, this.2, fun g x => by cases x⟩
   | stop =>
     right
-    have := viaHK (stopCall_hk cfg s none true) rfl rfl hH
+    have := viaHK (userStop_hk cfg s) rfl rfl hH
     exact ⟨this.1, this.2, fun g x => by cases x⟩
   | coordDone r =>
     right
